@@ -24,6 +24,7 @@
                                          decoder of the same envelope
    Definitions only. *)
 From Aqua Require Import Base Json Air Trace Handler Values Scalars Lens Exec RunExec RunTop.
+From Aqua Require Stream.
 Open Scope N_scope.
 Open Scope list_scope.
 
@@ -276,6 +277,28 @@ Definition C02_internal_error_branch_stmt : Prop :=
   exists exec_stream_instr finish_streams sign_produced sign_result serialize fuel l w prev r,
     execute_air_full exec_stream_instr finish_streams sign_produced sign_result serialize fuel l w prev = FOut r /\
     fail_code (r_code r) = true /\ r_data r = [] /\ prev <> [].
+
+(* ------------------------------------------------------------------------------------------ *)
+(* 2b. when compactification cannot fail: the local half of DESIGN 6/C02 `compactify_total`.
+   Streams::compactify / StreamMaps::compactify run a plan of TraceHandler::update_generation calls
+   (Stream.run_plan over Handler.update_generation; ExecStreams.finish_streams is built from it).
+   [gen_state_at t p]: position p of the result trace holds a state whose generation
+   update_generation can overwrite (an Ap state or a stream Call state). *)
+Definition gen_state_at (t : list (state cid)) (p : N) : bool :=
+  match Trace.nth_N t p with
+  | Some (SAp _) => true
+  | Some (SCall (Executed (VRStream _ _))) => true
+  | _ => false
+  end.
+
+(* if every value position of the plan points at such a state and no generation index overflows,
+   the plan runs to the end: no GenerationCompactificationError *)
+Definition C02_compactify_sufficient_stmt : Prop :=
+  forall (h : handler cid) (pl : Stream.compact_plan),
+    forallb (fun pg => gen_state_at (result_trace cid h) (fst pg)) (Stream.cp_updates pl) = true ->
+    Stream.cp_crash pl = None ->
+    exists h', Stream.run_plan (update_generation cid) h pl = Stream.CompactOk h' /\
+               forall q, gen_state_at (result_trace cid h') q = gen_state_at (result_trace cid h) q.
 
 (* ------------------------------------------------------------------------------------------ *)
 (* 3. tie to the source lines (tools/genx_codes.py) *)
